@@ -19,7 +19,18 @@
 //
 // Exit causes: NOTIFICATION from the peer, hold-timer expiry (4 s, real), keepalive send failure
 // (write fault), malformed UPDATE (several kinds), bad header marker, unknown message type,
-// unexpected OPEN, DisposePeer, ManualStop / AutomaticStop / Cease through the event hook.
+// unexpected OPEN, DisposePeer, ManualStop / AutomaticStop / Cease through the event hook, and
+// peer-gone: the remote side vanishes (no more input, bio-rd's writes start failing after k more writes),
+// so that the hold timer or the keepalive timer notices and the NOTIFICATION / KEEPALIVE cannot be written.
+//
+// A part of the cases runs a second, silent session (the "other" session) of another peer in the same
+// VRF, with the same or a different local AS / cluster id, established before or after the observed one.
+// Then additionally, at the same points,
+//
+//	other-session-contribution   the other session is still Established and its local AS / cluster id still
+//	                             contributes (what a leaving session withdraws is ITS contribution)
+//
+// and the Loc-RIB client count is compared with the count that includes the other session's Adj-RIB-Out.
 package main
 
 import (
@@ -46,13 +57,46 @@ type ccase struct {
 	Cause   string            `json:"cause"`
 	Updates []sessgen.UpdSpec `json:"updates"`
 	Twice   bool              `json:"twice,omitempty"` // tear the second session down the same way and establish a third time
+	// WritesOK (cause peer-gone): bio-rd's writes on the connection fail after this many more writes
+	WritesOK int `json:"writes_ok,omitempty"`
+	// Other: a second session of another peer in the same VRF
+	Other *otherSpec `json:"other,omitempty"`
+}
+
+// otherSpec describes the second session: an iBGP peer of bio-rd under its own local AS.
+type otherSpec struct {
+	LocalAS   uint32 `json:"local_as"`
+	RRClient  bool   `json:"rr_client,omitempty"`
+	ClusterID uint32 `json:"cluster_id,omitempty"` // 0: bio-rd's router id (what the observed RR client session uses)
+	First     bool   `json:"first,omitempty"`      // established (and so registered) before the observed session
+}
+
+func (o *otherSpec) label(victimRR bool) string {
+	if o == nil {
+		return "none"
+	}
+	what := "other-as"
+	if o.LocalAS == sessgen.LocalAS {
+		what = "same-as"
+	}
+	if o.RRClient && victimRR {
+		if o.ClusterID == 0 {
+			what += "+same-cluster"
+		} else {
+			what += "+other-cluster"
+		}
+	}
+	if o.First {
+		return what + ",registered-earlier"
+	}
+	return what + ",registered-later"
 }
 
 var causes = []string{
 	"notification", "hold-timer", "keepalive-send-failure",
 	"malformed-update:length-sum", "malformed-update:as-path-segment", "malformed-update:truncated", "malformed-update:mp-reach",
 	"bad-marker", "unknown-type", "bad-notification", "unexpected-open",
-	"dispose-peer", "manual-stop", "automatic-stop", "cease",
+	"dispose-peer", "manual-stop", "automatic-stop", "cease", "peer-gone",
 }
 
 var (
@@ -174,9 +218,13 @@ func viewList(vs []speaker.PathView) string {
 
 // leave makes session s leave Established by the given cause and waits for the synchronisation point.
 // It returns a description of what was observed, or an error text when the session did not leave.
-func leave(srv *speaker.Server, p *speaker.Peer, s *speaker.Session, cause string) (how string, inconcl string) {
+func leave(srv *speaker.Server, p *speaker.Peer, s *speaker.Session, c ccase) (how string, inconcl string) {
+	cause := c.Cause
 	budget := 5 * time.Second
 	switch cause {
+	case "peer-gone":
+		s.Conn.FailWrites(nil, c.WritesOK)
+		budget = 20 * time.Second // hold time 3 or 4 s
 	case "notification":
 		s.SendNotification(6, 2)
 	case "hold-timer":
@@ -226,7 +274,43 @@ func leave(srv *speaker.Server, p *speaker.Peer, s *speaker.Session, cause strin
 	for _, n := range s.Notifications() {
 		ns = append(ns, n.String())
 	}
-	return fmt.Sprintf("state=%q closed=%v barrier=%v notifications=%v", s.State(), s.Conn.IsClosed(), barrier, ns), ""
+	return fmt.Sprintf("state=%q closed=%v barrier=%v notifications=%v refused-writes=%v", s.State(), s.Conn.IsClosed(), barrier, ns, refusedWrites(s)), ""
+}
+
+// refusedWrites names the messages bio-rd tried to write while the injected write fault was active.
+func refusedWrites(s *speaker.Session) []string {
+	var out []string
+	for _, d := range s.Conn.FailedWriteData() {
+		switch {
+		case len(d) < wire.HeaderLen:
+			out = append(out, fmt.Sprintf("%d bytes", len(d)))
+		case d[18] == wire.TypeNotification && len(d) >= wire.HeaderLen+2:
+			out = append(out, fmt.Sprintf("NOTIFICATION %d/%d", d[19], d[20]))
+		case d[18] == wire.TypeKeepalive:
+			out = append(out, "KEEPALIVE")
+		case d[18] == wire.TypeUpdate:
+			out = append(out, "UPDATE")
+		default:
+			out = append(out, fmt.Sprintf("type %d", d[18]))
+		}
+	}
+	return out
+}
+
+// observedExit refines the exit path of a peer-gone case from what bio-rd tried to write last.
+func observedExit(s *speaker.Session) string {
+	rw := refusedWrites(s)
+	if len(rw) == 0 {
+		return "hold-timer" // every write went through: a plain hold timer expiry
+	}
+	switch last := rw[len(rw)-1]; {
+	case last == "NOTIFICATION 4/0":
+		return "hold-timer+notification-write-failure"
+	case last == "KEEPALIVE":
+		return "keepalive-send-failure"
+	default:
+		return "write-failure:" + last
+	}
 }
 
 func runCase(idx int, raw json.RawMessage) (res batch.Result) {
@@ -246,7 +330,13 @@ func runCase(idx int, raw json.RawMessage) (res batch.Result) {
 	}
 	pr := &probe{res: &res}
 	// the feature that pins a defect is the FSM exit path the cause drives; cause, kind and chain are in the detail
-	pr.feat = func() map[string]string { return vf.F("exit", exitPath(c.Cause)) }
+	exit := exitPath(c.Cause)
+	pr.feat = func() map[string]string {
+		if c.Other != nil {
+			return vf.F("exit", exit, "other_session", c.Other.label(cfg.RRClient))
+		}
+		return vf.F("exit", exit)
+	}
 
 	srv := speaker.NewServer(speaker.ServerConfig{})
 	srv.AddStatic(seedV4.Ptr(), bnet.IPv4FromOctets(192, 0, 2, 77))
@@ -261,6 +351,58 @@ func runCase(idx int, raw json.RawMessage) (res batch.Result) {
 		return
 	}
 	clusterID := srv.RouterID
+	// ---- the other session ----
+	var op *speaker.Peer
+	var osess *speaker.Session
+	otherUp := func() (err error) {
+		if op == nil {
+			if op, err = srv.AddPeer(speaker.PeerConfig{LocalAS: c.Other.LocalAS, RRClient: c.Other.RRClient, ClusterID: c.Other.ClusterID, IPv4: &speaker.Family{Import: speaker.Accept()}}); err != nil {
+				return err
+			}
+		}
+		for attempt := 0; attempt < 4; attempt++ {
+			if osess, err = op.EstablishDefault(); err == nil {
+				return nil
+			}
+			time.Sleep(time.Duration(attempt*attempt) * 25 * time.Millisecond)
+		}
+		return err
+	}
+	otherClients := func(v4 bool) uint64 { // what the other session adds to the Loc-RIB client count
+		if osess != nil && v4 {
+			return 1
+		}
+		return 0
+	}
+	otherCluster := func() uint32 {
+		if c.Other.ClusterID != 0 {
+			return c.Other.ClusterID
+		}
+		return srv.RouterID
+	}
+	// checkOther: the other session is untouched by what happened to the observed one
+	checkOther := func() {
+		if osess == nil {
+			return
+		}
+		if r := osess.Sync(); !r.OK() || !osess.Established() {
+			pr.add("other-session-contribution", "the other session (local AS %d) is no longer Established (%v, state %s, NOTIFICATIONs %v)", c.Other.LocalAS, r, osess.State(), osess.Notifications())
+			return
+		}
+		if !srv.VRF.IsContributingASN(c.Other.LocalAS) {
+			pr.add("other-session-contribution", "vrf.IsContributingASN(%d) is false although the other session, whose local AS that is, is still Established", c.Other.LocalAS)
+		}
+		if c.Other.RRClient && !srv.VRF.IsContributingClusterID(otherCluster()) {
+			pr.add("other-session-contribution", "vrf.IsContributingClusterID(%#x) is false although the other session, an RR client with that cluster id, is still Established", otherCluster())
+		}
+		res.Count("other_session_checks", 1)
+	}
+	if c.Other != nil && c.Other.First {
+		if err := otherUp(); err != nil {
+			res.Inconcl = "cannot establish the other session: " + err.Error()
+			return
+		}
+	}
 	rounds := 1
 	if c.Twice {
 		rounds = 2
@@ -268,7 +410,6 @@ func runCase(idx int, raw json.RawMessage) (res batch.Result) {
 	var s *speaker.Session
 	for round := 0; round <= rounds; round++ {
 		// ---- (re-)establish ----
-		clientsBefore := srv.ClientCount(true)
 		s, err = sessgen.Establish(p, cfg)
 		pr.where = fmt.Sprintf("%s/%s/%s/%s round %d", c.Cause, cfg.Kind(), chain, fams, round)
 		if err != nil {
@@ -344,6 +485,13 @@ func runCase(idx int, raw json.RawMessage) (res batch.Result) {
 		if round == rounds {
 			break
 		}
+		if c.Other != nil && osess == nil {
+			// registered later than the observed session
+			if err := otherUp(); err != nil {
+				res.Inconcl = "cannot establish the other session: " + err.Error()
+				return
+			}
+		}
 		// ---- learn routes ----
 		for ui, u := range c.Updates {
 			w, _ := u.Build(s.Neg.SendOpts())
@@ -361,7 +509,7 @@ func runCase(idx int, raw json.RawMessage) (res batch.Result) {
 			res.Inconcl = "no route from the peer reached the Loc-RIB: the case decides nothing"
 			return
 		}
-		if !srv.VRF.IsContributingASN(sessgen.LocalAS) || srv.ClientCount(true) != clientsBefore+1 {
+		if !srv.VRF.IsContributingASN(sessgen.LocalAS) || srv.ClientCount(true) != clients0[0]+otherClients(true)+1 {
 			res.Inconcl = fmt.Sprintf("established session is not attached as expected (contributing=%v clients=%d)", srv.VRF.IsContributingASN(sessgen.LocalAS), srv.ClientCount(true))
 			return
 		}
@@ -372,36 +520,50 @@ func runCase(idx int, raw json.RawMessage) (res batch.Result) {
 			}
 		}
 		// ---- leave Established ----
-		how, inc := leave(srv, p, s, c.Cause)
+		how, inc := leave(srv, p, s, c)
 		if inc != "" {
 			res.Inconcl = inc
 			return
 		}
 		res.Count("exits", 1)
 		res.Count("exit_"+c.Cause, 1)
-		res.Nontrivial = append(res.Nontrivial, fmt.Sprintf("%s|%s|%s|%s|rewritten=%v", c.Cause, cfg.Kind(), chain, fams, rewritten > 0))
+		if c.Cause == "peer-gone" {
+			exit = observedExit(s)
+			res.Count("exit_peer-gone_as_"+exit, 1)
+			res.Count(fmt.Sprintf("exit_peer-gone_hold%d_writes-ok%d_as_%s", cfg.Hold, c.WritesOK, exit), 1)
+		}
+		if c.Other != nil {
+			res.Count("exits_with_other_session", 1)
+			res.Count("exits_with_other_session_"+c.Other.label(cfg.RRClient), 1)
+			res.Nontrivial = append(res.Nontrivial, fmt.Sprintf("%s|%s|%s|%s|rewritten=%v|other=%s", exit, cfg.Kind(), chain, fams, rewritten > 0, c.Other.label(cfg.RRClient)))
+		} else {
+			res.Nontrivial = append(res.Nontrivial, fmt.Sprintf("%s|%s|%s|%s|rewritten=%v", exit, cfg.Kind(), chain, fams, rewritten > 0))
+		}
 		pr.where += " after exit (" + how + ")"
 		if vs := fromPeer(srv, p.Addr); len(vs) > 0 {
 			pr.add("routes-remain", "%d of %d Loc-RIB paths learned from the peer are still there: %s", len(vs), len(learned), viewList(vs))
 		}
 		for i, v4 := range []bool{true, false} {
-			if n := srv.ClientCount(v4); n != clients0[i] {
+			if n := srv.ClientCount(v4); n != clients0[i]+otherClients(v4) {
 				// supporting observation: a route from another source still reaches the dead session's sender
 				before := s.Conn.LateWrites() + s.Conn.WriteCount()
 				srv.AddStatic(bnet.NewPfx(bnet.IPv4FromOctets(10, 88, byte(round), 0), 24).Ptr(), bnet.IPv4FromOctets(192, 0, 2, 88))
 				time.Sleep(30 * time.Millisecond)
 				srv.RemoveStatic(bnet.NewPfx(bnet.IPv4FromOctets(10, 88, byte(round), 0), 24).Ptr(), bnet.IPv4FromOctets(192, 0, 2, 88))
 				after := s.Conn.LateWrites() + s.Conn.WriteCount()
-				pr.add("rib-out-registered", "Loc-RIB (v4=%v) has %d clients, %d before the session: the Adj-RIB-Out is still registered (a route injected afterwards caused %d write attempts on the old connection)", v4, n, clients0[i], after-before)
+				pr.add("rib-out-registered", "Loc-RIB (v4=%v) has %d clients, %d before the session: the Adj-RIB-Out is still registered (a route injected afterwards caused %d write attempts on the old connection)", v4, n, clients0[i]+otherClients(v4), after-before)
 				break
 			}
 		}
-		if srv.VRF.IsContributingASN(sessgen.LocalAS) {
-			pr.add("contributing-asn", "vrf.IsContributingASN(%d) is still true and no other session exists", sessgen.LocalAS)
+		sharedAS := osess != nil && c.Other.LocalAS == sessgen.LocalAS
+		sharedCluster := osess != nil && c.Other.RRClient && otherCluster() == clusterID
+		if !sharedAS && srv.VRF.IsContributingASN(sessgen.LocalAS) {
+			pr.add("contributing-asn", "vrf.IsContributingASN(%d) is still true and no other session with that local AS exists (other session: %s)", sessgen.LocalAS, c.Other.label(cfg.RRClient))
 		}
-		if cfg.RRClient && srv.VRF.IsContributingClusterID(clusterID) {
-			pr.add("contributing-cluster", "vrf.IsContributingClusterID(%#x) is still true and no other session exists", clusterID)
+		if cfg.RRClient && !sharedCluster && srv.VRF.IsContributingClusterID(clusterID) {
+			pr.add("contributing-cluster", "vrf.IsContributingClusterID(%#x) is still true and no other session with that cluster id exists (other session: %s)", clusterID, c.Other.label(cfg.RRClient))
 		}
+		checkOther()
 		res.Count("exit_checks", 1)
 		if c.Cause == "dispose-peer" {
 			// the peer is gone: configure it again for the next round
@@ -412,10 +574,45 @@ func runCase(idx int, raw json.RawMessage) (res batch.Result) {
 			}
 		}
 	}
+	// the other session goes (NOTIFICATION from its peer) while the re-established observed session stays:
+	// now ITS contribution is the one to be withdrawn, and the observed session's the one to stay
+	if osess != nil && s != nil && s.Established() {
+		pr.where = fmt.Sprintf("%s/%s/%s/%s after the other session (%s) left Established by NOTIFICATION", c.Cause, cfg.Kind(), chain, fams, c.Other.label(cfg.RRClient))
+		exit = "notification"
+		osess.SendNotification(6, 2)
+		deadline := time.Now().Add(5 * time.Second)
+		for osess.Established() && time.Now().Before(deadline) {
+			time.Sleep(time.Millisecond)
+		}
+		osess.Barrier(speaker.CeaseGrace)
+		if osess.Established() {
+			res.Inconcl = "the other session did not leave Established on a NOTIFICATION"
+			return
+		}
+		if c.Other.LocalAS != sessgen.LocalAS && srv.VRF.IsContributingASN(c.Other.LocalAS) {
+			pr.add("contributing-asn", "vrf.IsContributingASN(%d) is still true and no session with that local AS is left", c.Other.LocalAS)
+		}
+		if c.Other.RRClient && !(cfg.RRClient && otherCluster() == clusterID) && srv.VRF.IsContributingClusterID(otherCluster()) {
+			pr.add("contributing-cluster", "vrf.IsContributingClusterID(%#x) is still true and no session with that cluster id is left", otherCluster())
+		}
+		if r := s.Sync(); !r.OK() || !s.Established() {
+			pr.add("other-session-contribution", "the observed session is no longer Established after the other session left (%v, state %s)", r, s.State())
+		} else {
+			if !srv.VRF.IsContributingASN(sessgen.LocalAS) {
+				pr.add("other-session-contribution", "vrf.IsContributingASN(%d) is false although the observed session, whose local AS that is, is Established", sessgen.LocalAS)
+			}
+			if cfg.RRClient && !srv.VRF.IsContributingClusterID(clusterID) {
+				pr.add("other-session-contribution", "vrf.IsContributingClusterID(%#x) is false although the observed RR client session is Established", clusterID)
+			}
+		}
+		res.Count("other_session_exit_checks", 1)
+	}
 	// leave nothing running
-	if s != nil && s.Established() {
-		s.SendNotification(6, 0)
-		s.Conn.WaitClosed(2 * time.Second)
+	for _, x := range []*speaker.Session{s, osess} {
+		if x != nil && x.Established() {
+			x.SendNotification(6, 0)
+			x.Conn.WaitClosed(2 * time.Second)
+		}
 	}
 	if idx%40 == 0 {
 		res.Sample = map[string]any{"cause": c.Cause, "kind": cfg.Kind(), "chain": chain, "families": fams, "updates": len(c.Updates)}
@@ -450,14 +647,57 @@ func genCases(r *vf.Run) []any {
 						case "keepalive-send-failure":
 							cfg.Hold = 3
 						}
+						cc := ccase{Cfg: cfg, Cause: cause, Twice: (i+rep)%5 == 0}
+						if cause == "peer-gone" {
+							// hold time 3: the expiry is noticed on the keepalive timer's path; 4: by the periodic check.
+							// bio-rd writes a KEEPALIVE every hold/3 and the peer's last message is just behind the
+							// start of the session, so the 4th write from here on is the HoldTimeExpired NOTIFICATION
+							cc.Cfg.Hold = 3 + i%2
+							cc.WritesOK = 3
+						}
 						if rep > 0 {
 							rng := r.RandN("c07", i)
-							cfg.RecvV4, cfg.OfferV4 = rng.IntN(2) == 0, rng.IntN(2) == 0
-							cfg.PeerAS4 = rng.IntN(3) != 0
+							cc.Cfg.RecvV4, cc.Cfg.OfferV4 = rng.IntN(2) == 0, rng.IntN(2) == 0
+							cc.Cfg.PeerAS4 = rng.IntN(3) != 0
+							if cause == "peer-gone" && rng.IntN(2) == 0 {
+								cc.WritesOK = rng.IntN(5) // 0…2: a KEEPALIVE fails first; 4: the NOTIFICATION is still written
+							}
 						}
-						out = append(out, ccase{Cfg: cfg, Cause: cause, Updates: genUpdates(cfg, 3+i%2, i%200), Twice: (i+rep)%5 == 0})
+						cc.Updates = genUpdates(cc.Cfg, 3+i%2, i%200)
+						out = append(out, cc)
 						i++
 					}
+				}
+			}
+		}
+		// a second session in the same VRF: same local AS, or another local AS registered later / earlier than
+		// the observed session's (RR clients: alternately the same and another cluster id)
+		for _, cause := range causes {
+			for _, kind := range []string{"ibgp", "ebgp", "rr-client"} {
+				for mode := 0; mode < 3; mode++ {
+					cfg := sessgen.Cfg{EBGP: kind == "ebgp", RRClient: kind == "rr-client", V4: true, V6: (i+rep)%2 == 0, PeerAS4: true, Import: []string{"accept", "set-lp", "prepend"}[(i+rep)%3]}
+					o := &otherSpec{LocalAS: sessgen.LocalAS, First: (i+rep)%2 == 0}
+					if mode > 0 {
+						o.LocalAS, o.First = 65010+uint32(i%7), mode == 2
+					}
+					if cfg.RRClient {
+						o.RRClient = true
+						if (i/3+mode+rep)%2 == 0 {
+							o.ClusterID = 0x0b0b0b00 + uint32(1+i%9)
+						}
+					}
+					cc := ccase{Cfg: cfg, Cause: cause, Other: o, Twice: (i+rep)%7 == 0}
+					switch cause {
+					case "hold-timer":
+						cc.Cfg.Hold = 4
+					case "keepalive-send-failure":
+						cc.Cfg.Hold = 3
+					case "peer-gone":
+						cc.Cfg.Hold, cc.WritesOK = 3+i%2, 3
+					}
+					cc.Updates = genUpdates(cc.Cfg, 3+i%2, i%200)
+					out = append(out, cc)
+					i++
 				}
 			}
 		}
@@ -471,11 +711,12 @@ func main() {
 		return
 	}
 	vf.Main("C07", "exploration", func(r *vf.Run) {
-		r.Rule("one session per case: exit cause {" + strings.Join(causes, ", ") + "} × import chain {accept, set LOCAL_PREF, prepend} × {iBGP, eBGP, RR client} × {IPv4, IPv4+IPv6 multiprotocol (every other one with IPv4 multiprotocol too)}; two static routes are seeded in the Loc-RIB; the session learns 3–4 UPDATEs (6–7 routes incl. a withdrawal), leaves Established by the cause, is checked, is established again over a new connection and checked again (every fifth case: torn down and established a third time). distinct_nontrivial = distinct (cause, kind, chain, families, import policy rewrote the learned paths) among sessions that had learned routes in the Loc-RIB and did leave Established")
+		r.Rule("one session per case: exit cause {" + strings.Join(causes, ", ") + "} × import chain {accept, set LOCAL_PREF, prepend} × {iBGP, eBGP, RR client} × {IPv4, IPv4+IPv6 multiprotocol (every other one with IPv4 multiprotocol too)}; two static routes are seeded in the Loc-RIB; the session learns 3–4 UPDATEs (6–7 routes incl. a withdrawal), leaves Established by the cause, is checked, is established again over a new connection and checked again (every fifth case: torn down and established a third time). Cause peer-gone: the remote side falls silent and bio-rd's writes fail after k more writes (quick: k=3 with hold time 3 and 4 s, which makes the HoldTimeExpired NOTIFICATION the first refused write, on the keepalive timer's path and on the periodic check's path; thorough: k=0…4, so a KEEPALIVE is refused first or nothing is); the exit path really taken is read off the refused writes. Second block: every cause × kind with a second, silent session of another peer in the same VRF — same local AS, or another local AS registered later or earlier than the observed session's; RR clients alternately with the same and another cluster id — checked for being untouched whenever the observed session left, and finally torn down itself while the observed session stays. distinct_nontrivial = distinct (exit path, kind, chain, families, import policy rewrote the learned paths, other session) among sessions that had learned routes in the Loc-RIB and did leave Established")
 		r.Assume("'whenever it leaves': that a session must leave Established for a cause is not claimed; a case whose session stays up is inconclusive",
 			"synchronisation: FSM state published under fsm.stateMu ≠ established or connection closed by bio-rd, then the barrier event where an FSM loop is left to take it",
 			"exportable Loc-RIB routes = the seeded static routes (bio-rd redistributes them to every kind of peer)",
-			"hold-timer and keepalive cases wait in real time (hold time 4 s / keepalive interval 1 s)")
+			"hold-timer, keepalive and peer-gone cases wait in real time (hold time 3–4 s / keepalive interval 1–1.3 s)",
+			"what a leaving session withdraws is its own contribution: a local AS / cluster id that another Established session of the VRF contributes stays contributing")
 		var cases []any
 		if raw, ok := r.Replaying(); ok {
 			cases = []any{raw}
@@ -493,6 +734,26 @@ func main() {
 		if _, ok := r.Replaying(); !ok {
 			r.Require("exits", int64(len(cases)*8/10))
 			r.Require("reestablish_checks", int64(len(cases)*6/10))
+			nOther, nGone := 0, 0
+			for _, c := range cases {
+				if cc, ok := c.(ccase); ok {
+					if cc.Other != nil {
+						nOther++
+					}
+					if cc.Cause == "peer-gone" && cc.WritesOK == 3 {
+						nGone++
+					}
+				}
+			}
+			r.Require("exits_with_other_session", int64(nOther*8/10))
+			r.Require("other_session_checks", int64(nOther*8/10))
+			r.Require("other_session_exit_checks", int64(nOther*6/10))
+			for _, l := range []string{"same-as", "other-as"} {
+				for _, o := range []string{"registered-earlier", "registered-later"} {
+					r.Require("exits_with_other_session_"+l+","+o, int64(nOther/20))
+				}
+			}
+			r.Require("exit_peer-gone_as_hold-timer+notification-write-failure", int64(nGone/2))
 		}
 	})
 }
